@@ -22,6 +22,9 @@ CLAIMED = {
  'C04': ("lock-region analysis on SSA (full-range lock loop idiom, deferred release, key provenance), action-guard cuts, module call graph with lexical closure edges (only-via RunRules), who-may-call tables",
          "Decides the conservative two-phase-locking structure: every stateful rule is reachable only through RunRules, RunRules locks the key of every request (same bytes as the database key) before dispatch and releases by defer, the lock condition covers every action under which a stateful rule is dispatched, the locker hands out one mutex per key, and the store is touched only below the stateful rules or import/export. Serial equivalence then follows by the textbook 2PL argument (prose).",
          "Not decided: the linearizability statement over concrete histories; fairness.", "§5 C04"),
+ 'C05': ("cuts of normalised domain-prefix atoms (bytes.Equal(Domain[0:4], <domain type>)) before every APPROVED origin, boolean-flag origin analysis for the administrator-address gate, action->rule dispatch table cross-checked against what the endpoints send, provenance of the signed domain",
+         "Decides that the generic rule's APPROVED is cut by [domain type != attester] and [!= proposer] and, below the voluntary-exit edge, by a non-empty source address that matched an administrator entry; that the attestation/proposal rules' APPROVED (and, for proposals, any state access) is cut by [domain type == their own]; that the ruler evaluates under each action the rule for the data type the endpoints send under it; and that both generic endpoints sign only APPROVED requests, over the very domain that was checked.",
+         "Not decided: the numeric values of the e2types domain constants. ", "§5 C05"),
  'C06': ("value-set cuts over the closed verdict enum at every signing site, data-dependence based nil-error cuts before every success site, pairing rules for signature/SUCCEEDED in services and handlers, summaries of the pre-check helpers, error-mapping cuts in the rules' fetch helpers and the store",
          "Decides that a signature is produced only where the rules verdict of the request's own position is APPROVED, that SUCCEEDED+signature is reachable only past the nil-error edge of every call the signature depends on, that signature and SUCCEEDED are written together (service and handler, position by position), that rules run only after lookup, permission check and unlock succeeded, and that fetch/decode/store failures cannot turn into 'nothing signed yet' or APPROVED.",
          "Not decided: behaviour when a dependency panics instead of returning an error; third-party signers. ", "§5 C06"),
